@@ -77,6 +77,8 @@ EXC_PARENT = {
     "UnpicklingError": "Exception",
     "NoSuchMailboxError": "Exception",
     "ZeroDivisionError": "Exception",
+    "NameError": "Exception",
+    "UnboundLocalError": "NameError",
 }
 EXC_ALIAS = {"IOError": "OSError", "EnvironmentError": "OSError", "socket.timeout": "TimeoutError", "socket.error": "OSError"}
 
@@ -105,6 +107,17 @@ class PC(list):
         self.eng = eng
         self._solver = None
         self._fed = 0
+        self._keys = [0]
+
+    def append(self, c):
+        super().append(c)
+        self.eng.keepalive.append(c)
+        self._keys.append(hash((self._keys[-1], c.get_id())))
+
+    def key(self):
+        # the list may have been truncated by reset_to
+        del self._keys[len(self) + 1:]
+        return self._keys[len(self)]
 
     def mark(self):
         s = self.solver()
@@ -113,6 +126,7 @@ class PC(list):
 
     def reset_to(self, mark, pop=True):
         del self[mark:]
+        del self._keys[mark + 1:]
         if self._solver is not None:
             # everything fed after the mark lives in the pushed scope
             self._solver.pop()
@@ -176,6 +190,9 @@ class Engine:
         self.assumptions_used = set()
         self.inlined = set()
         self.lemmas_used = set()
+        self.at_hits = set()
+        self.feas_cache = {}
+        self.keepalive = []
         self.callees_by_contract = set()
         self.stats = {"stmts": 0, "dropped": 0}
         self.max_paths = 4000
@@ -208,6 +225,16 @@ class Engine:
             d[1] = False
 
     def feasible(self, extra):
+        ck = (self.pc.key(), extra.get_id())
+        r = self.feas_cache.get(ck)
+        if r is not None:
+            return r
+        self.keepalive.append(extra)
+        r = self._feasible(extra)
+        self.feas_cache[ck] = r
+        return r
+
+    def _feasible(self, extra):
         s = self.pc.solver()
         s.push()
         try:
@@ -671,7 +698,28 @@ class Engine:
         m = getattr(self, "st_" + type(st).__name__, None)
         if m is None:
             raise OutOfSubset("statement %s at line %d" % (type(st).__name__, st.lineno))
-        return m(st, fr)
+        r = m(st, fr)
+        c = fr.contract
+        if c is not None and getattr(c, "at", None) and self.frame_stack and fr is self.frame_stack[0]:
+            text = ast.unparse(st).split("\n")[0]
+            acts = []
+            for k, v in c.at.items():
+                if (k.startswith("after:") and k[6:] == text) or (k.startswith("after~") and k[6:] in text):
+                    acts.extend((k, a) for a in v)
+            for key, act in acts:
+                self.at_hits.add(key)
+                if act[0] == "ghost":
+                    self.ghost[act[1]] = self.eval_str(act[2], fr)
+                else:
+                    nm = "%s.at[%s][%s]" % (self.cur_label, key[6:][:40], act[1][:50])
+                    self.oblige(nm, self.world_clause(act[1], fr), kind="assert", site=st.lineno, note=act[1])
+        return r
+
+    def world_clause(self, cl, fr):
+        try:
+            return self.eval_merged(lambda: self.truth(self.eval_str(cl, fr)))
+        except Raised:
+            return False
 
     def st_Pass(self, st, fr):
         pass
@@ -802,7 +850,211 @@ class Engine:
             return
         raise OutOfSubset("setitem on %r[%r]" % (obj, idx))
 
+    def _if_merge_targets(self, st):
+        """Locations an `if` statement assigns, when it is a pure scalar update (no calls with effects, no
+        control transfer); None when the statement is not of that shape."""
+        targets = []
+        for n in ast.walk(st):
+            if isinstance(n, (ast.Return, ast.Raise, ast.Break, ast.Continue, ast.While, ast.For, ast.Try, ast.With, ast.Global, ast.Delete, ast.Import, ast.ImportFrom)):
+                return None
+            if isinstance(n, ast.Expr) and not isinstance(n.value, ast.Constant):
+                return None
+            if isinstance(n, (ast.Assign, ast.AugAssign, ast.AnnAssign)):
+                ts = n.targets if isinstance(n, ast.Assign) else [n.target]
+                for t in ts:
+                    if isinstance(t, ast.Name):
+                        targets.append(("name", t.id))
+                    elif isinstance(t, ast.Attribute) and isinstance(t.value, ast.Name):
+                        targets.append(("attr", t.value.id, t.attr))
+                    else:
+                        return None
+        if not targets or not self.is_pure_expr(st):
+            return None
+        return sorted(set(targets))
+
+    def try_merged_if(self, st, fr):
+        targets = self._if_merge_targets(st)
+        if targets is None:
+            return False
+        if any(t[0] == "name" and t[1] in fr.globals_decl for t in targets):
+            return False
+        MISSING = object()
+
+        def read(t):
+            if t[0] == "name":
+                return fr.locals.get(t[1], MISSING)
+            obj = fr.locals.get(t[1])
+            obj = self.force(obj) if isinstance(obj, V) else obj
+            if not isinstance(obj, VObj):
+                raise OutOfSubset("merge target")
+            if t[2] in obj.fields:
+                return obj.fields[t[2]]
+            if t[2] in obj.fieldty and not getattr(obj, "fresh_alloc", False) and not obj.fieldty[t[2]].startswith("maybe:"):
+                return self.getattr(obj, t[2])
+            return MISSING
+
+        def write(t, v):
+            if t[0] == "name":
+                if v is MISSING:
+                    fr.locals.pop(t[1], None)
+                else:
+                    fr.locals[t[1]] = v
+            else:
+                obj = self.force(fr.locals[t[1]])
+                if v is MISSING:
+                    obj.fields.pop(t[2], None)
+                else:
+                    obj.fields[t[2]] = v
+                    obj.unset.discard(t[2])
+
+        try:
+            pre = [read(t) for t in targets]
+        except (OutOfSubset, Raised):
+            return False
+        results = []
+
+        def thunk():
+            for t, v in zip(targets, pre):
+                write(t, v)
+            try:
+                self._st_If_plain(st, fr)
+                results.append((None, [read(t) for t in targets]))
+            finally:
+                pass
+            return VBool(True)
+
+        # enumerate the sub-paths by hand (like eval_merged, but collecting tuples)
+        outer_dec, outer_pos = self.decisions, self.pos
+        self.merge_depth = getattr(self, "merge_depth", 0) + 1
+        base_ctr, base_site = dict(self.fresh_ctr), dict(self.site_ctr)
+        base_len = self.pc.mark()
+        local = []
+        ok = True
+        max_ctr = dict(base_ctr)
+        collected = []
+        try:
+            n = 0
+            while True:
+                n += 1
+                if n > 64:
+                    ok = False
+                    break
+                self.decisions, self.pos = local, 0
+                self.fresh_ctr, self.site_ctr = dict(base_ctr), dict(base_site)
+                for t, v in zip(targets, pre):
+                    write(t, v)
+                try:
+                    self._st_If_plain(st, fr)
+                    collected.append((list(self.pc[base_len:]), [read(t) for t in targets]))
+                except PathEnd:
+                    pass
+                except (Raised, ReturnEx, BreakEx, ContinueEx, OutOfSubset):
+                    ok = False
+                for k, val in self.fresh_ctr.items():
+                    if val > max_ctr.get(k, 0):
+                        max_ctr[k] = val
+                self.pc.reset_to(base_len, pop=False)
+                if not ok:
+                    break
+                while local and not local[-1][1]:
+                    local.pop()
+                if not local:
+                    break
+                local[-1][0] = not local[-1][0]
+                local[-1][1] = False
+        finally:
+            self.merge_depth -= 1
+            self.pc.reset_to(base_len, pop=True)
+            self.decisions, self.pos = outer_dec, outer_pos
+            self.site_ctr = base_site
+            for t, v in zip(targets, pre):
+                write(t, v)
+        if not ok or not collected:
+            self.fresh_ctr = base_ctr
+            return False
+        # merge every target
+        merged = []
+        guards = [z3.And(*g) if len(g) > 1 else (g[0] if g else z3.BoolVal(True)) for g, _ in collected]
+        for i, t in enumerate(targets):
+            vals = [vs[i] for _, vs in collected]
+            if any(v is MISSING for v in vals):
+                self.fresh_ctr = base_ctr
+                return False
+            if all(v is vals[0] for v in vals):
+                merged.append(vals[0])
+                continue
+            vals = [self._as_opt_scalar(v) for v in vals]
+            if any(v is None for v in vals):
+                self.fresh_ctr = base_ctr
+                return False
+            m = self._merge_scalars(guards, vals)
+            if m is None:
+                self.fresh_ctr = base_ctr
+                return False
+            merged.append(m)
+        self.fresh_ctr = max_ctr
+        if len(collected) == 1:
+            for c in collected[0][0]:
+                self.pc.append(c)
+        else:
+            self.pc.append(z3.Or(*guards))
+        for t, v in zip(targets, merged):
+            write(t, v)
+        return True
+
+    def _as_opt_scalar(self, v):
+        if isinstance(v, VOpt):
+            inner = self._as_opt_scalar(v.inner)
+            if inner is None or isinstance(inner, VOpt):
+                return None
+            return v
+        if v is NONE or isinstance(v, (VStr, VInt, VBool)):
+            return v
+        return None
+
+    def _merge_scalars(self, guards, vals):
+        def ite(mk):
+            t = mk(vals[-1])
+            for g, v in zip(reversed(guards[:-1]), reversed(vals[:-1])):
+                t = z3.If(g, mk(v), t)
+            return t
+        base = [v.inner if isinstance(v, VOpt) else v for v in vals]
+        nonnone = [b for b in base if b is not NONE]
+        if not nonnone:
+            return NONE
+        kind = type(nonnone[0])
+        if any(type(b) is not kind for b in nonnone):
+            return None
+        if kind is VStr and len({b.isbytes for b in nonnone}) != 1:
+            return None
+        dflt = {VStr: z3.StringVal(""), VInt: z3.IntVal(0), VBool: z3.BoolVal(False)}[kind]
+        conv = {VStr: zstr, VInt: zint, VBool: zbool}[kind]
+        def val_of(v):
+            b = v.inner if isinstance(v, VOpt) else v
+            return dflt if b is NONE else conv(b.z)
+        def none_of(v):
+            if v is NONE:
+                return z3.BoolVal(True)
+            if isinstance(v, VOpt):
+                return zbool(v.isnone)
+            return z3.BoolVal(False)
+        value = ite(val_of)
+        if kind is VStr:
+            inner = VStr(value, nonnone[0].isbytes)
+        elif kind is VInt:
+            inner = VInt(value)
+        else:
+            inner = VBool(value)
+        if all(v is not NONE and not isinstance(v, VOpt) for v in vals):
+            return inner
+        return VOpt(z3.simplify(ite(none_of)), inner)
+
     def st_If(self, st, fr):
+        if not getattr(self, "merge_depth", 0) and not self.no_branch and self.try_merged_if(st, fr):
+            return
+        self._st_If_plain(st, fr)
+
+    def _st_If_plain(self, st, fr):
         c = self.eval(st.test, fr)
         if self.is_true(c):
             self.exec_block(st.body, fr)
@@ -965,6 +1217,12 @@ class Engine:
                     continue
                 pre[name] = fr.locals[name]
                 cur = fr.locals[name]
+                if isinstance(cur, VObj):
+                    # an object the loop mutates through method calls: havoc its state in place (identity is kept)
+                    for f in list(cur.fields):
+                        if isinstance(cur.fields[f], (VStr, VInt, VBool, VReal, VOpt)):
+                            cur.fields[f] = self.fresh_like(cur.fields[f], "%s_%s_%s" % (label, name, f))
+                    continue
                 if cur is NONE or isinstance(cur, VOpt):
                     # the loop may assign a value of another kind: learn it from a sandboxed first iteration
                     ex = self.discover_assigned(st, fr, kind, seq, name)
@@ -1155,6 +1413,9 @@ class Engine:
         n = e.id
         if n in fr.locals and n not in fr.globals_decl:
             return fr.locals[n]
+        if fr.fi is not None and n not in fr.globals_decl and n in _local_names(fr.fi):
+            # a local that no executed statement has bound yet
+            self.raise_("UnboundLocalError", site=getattr(e, "lineno", None))
         return self.world.lookup_name(self, fr, n)
 
     def ev_Tuple(self, e, fr):
@@ -1784,6 +2045,25 @@ def _as_load(t):
         if hasattr(n, "ctx"):
             n.ctx = ast.Load()
     return t2
+
+
+_LOCALS_CACHE = {}
+
+
+def _local_names(fi):
+    k = id(fi.node)
+    if k not in _LOCALS_CACHE:
+        names = set()
+        for n in ast.walk(fi.node):
+            if isinstance(n, ast.Name) and isinstance(n.ctx, ast.Store):
+                names.add(n.id)
+            elif isinstance(n, ast.ExceptHandler) and n.name:
+                names.add(n.name)
+        for n in ast.walk(fi.node):
+            if isinstance(n, ast.Global):
+                names -= set(n.names)
+        _LOCALS_CACHE[k] = (fi, names)
+    return _LOCALS_CACHE[k][1]
 
 
 def _target_names(t):
